@@ -785,7 +785,9 @@ def _nonempty_here(P, tu, f, b, dom):
         t = db.get('term')
         if not t or t['kind'] != 'IfStmt' or len(db['succ']) != 2:
             continue
-        c = guards.canon(t.get('fullcond') or t['cond'])
+        # a test kept in a single-definition local (`const int was_empty = state->earliest_job < 0`) counts as written out
+        with guards.in_function(f):
+            c = guards.canon(guards.expand(f, t.get('fullcond') or t['cond'], d))
         if c in ('state->earliest_job < 0', 'state->earliest_job >= 0'):
             # either the non-empty successor dominates b, or the empty branch terminates / establishes non-emptiness
             fs, ts = (db['succ'][1], db['succ'][0]) if c == 'state->earliest_job < 0' else (db['succ'][0], db['succ'][1])
